@@ -999,6 +999,16 @@ func (t *Teamserver) FindSystemPackages() bool {
 	return true
 }
 
+func (t *Teamserver) EndpointExist(endpoint string) bool {
+	for _, e := range t.Endpoints {
+		if e.Endpoint == endpoint {
+			return true
+		}
+	}
+
+	return false
+}
+
 func (t *Teamserver) EndpointAdd(endpoint *Endpoint) bool {
 	for _, e := range t.Endpoints {
 		if e.Endpoint == endpoint.Endpoint {
